@@ -88,6 +88,9 @@ fn build_state(k: usize) -> Memfs {
         let _ = m.symlink("/cyc/l1", "/cyc/l2");
         let _ = m.symlink("/cyc/l2", "/cyc/l1");
         let _ = m.symlink("/cyc/self", "/cyc/self");
+        // ... and a link to the root itself next to them: followed, it is an entry without a file name
+        let _ = m.symlink("/cyc/toroot", "/");
+        let _ = m.mkdir_p("/cyc/zdir"); // (a second member for the group the followed link is sorted into)
         let _ = m.mkfile("/sf");
         let _ = m.symlink("/stf", "/sf");
         let _ = m.remove("/sf");
@@ -518,7 +521,7 @@ fn c12(ctx: &Ctx, rep: &mut Report) {
     }
     // two-path methods on meaningful nestings
     if ctx.shard == 0 {
-        let hot = ["/", "/a", "/a/b", "/a/f", "/l", "/a/lf", "/a/b/up", "/a/b/x/y", "/zz", "", "..", "/a/..", "/a/b/..", "/stl", "/stf", "/st", "/cdir", "/cdir/link", "/ch", "/cyc", "/cyc/l1", "/cyc/self"];
+        let hot = ["/", "/a", "/a/b", "/a/f", "/l", "/a/lf", "/a/b/up", "/a/b/x/y", "/zz", "", "..", "/a/..", "/a/b/..", "/stl", "/stf", "/st", "/cdir", "/cdir/link", "/ch", "/cyc", "/cyc/l1", "/cyc/self", "/cyc/toroot"];
         for a in hot {
             for k in 1..3 {
                 run_ops(k, &ops_one(a), &format!("prepared:{}", if a.starts_with("/st") { "stale-link" } else { "entry" }), rep);
